@@ -47,6 +47,7 @@ type Config struct {
 	Preempt      int `json:"preempt"`
 	TimeBudgetS  int `json:"time_budget_s"`
 	SampleEvery  int `json:"sample_every"`
+	Sched        string `json:"sched"` // "" = every order at blocking points is explored; "first" = lowest task id (one canonical schedule)
 }
 
 func (c *Config) isUnderTest(path string) bool {
